@@ -316,10 +316,17 @@ class Interp:
                 elif op in ('fadd', 'fsub', 'fmul', 'fdiv'):
                     a = s.val(I.a, I.ty, env); b = s.val(I.b, I.ty, env)
                     if isinstance(a, Mag) or isinstance(b, Mag):
-                        if op != 'fmul': raise NotImplementedError('%s on a magnitude' % op)
+                        if op not in ('fmul', 'fdiv'): raise NotImplementedError('%s on a magnitude' % op)
+                        for o_ in (a, b):
+                            if not isinstance(o_, Mag) and not (o_.isconst() and o_.value() >= 0):
+                                raise NotImplementedError('magnitude combined with a signed symbolic value')
                         ra = a.rad if isinstance(a, Mag) else a * a
                         rb = b.rad if isinstance(b, Mag) else b * b
-                        env[I.dst] = Mag(ra * rb); continue
+                        if op == 'fdiv':
+                            s.need_nonzero(rb.n); env[I.dst] = Mag(ra / rb)
+                        else:
+                            env[I.dst] = Mag(ra * rb)
+                        continue
                     if op == 'fadd': r = a + b
                     elif op == 'fsub': r = a - b
                     elif op == 'fmul': r = a * b
